@@ -92,7 +92,7 @@ CLAIMS = {
         note='As C02 and C03 (memory level proved for all option combinations; strip_forks under its side condition).'),
     'C06': dict(
         technique='Coq proofs: memory-level invariance of the observed slots under c_reuse and strip_forks for all netlists (every option combination delivers the unstripped line-level value), launcher covers every instance once (model tied to the real MockCuda), lane independence, release-order irrelevance, multi-cycle strip invariance; differential execution over all option pairs',
-        text='Proof (option clauses full at logic and timing level; code-path clause: kernel bodies by proof from the source text, driver loops by differential execution). CODE PATH (round 3): the merge kernel is ONE function for both paths; wave_capture_cpu and wave_capture_gpu, both translated from the current source, are proved equal to the capture model and hence to each other for all waveforms and capture times (C06_capture_cpu_gpu_same_source_model; sd = 0); the dataset-selection prologue of the source is the select_idx of the dataset theorems (C06_select_source_is_model); the MockCuda launcher is translated from source and proved to run every in-range kernel instance exactly once from any stale coordinates (C06_launcher_source_is_model); every memory access of the kernels is in the kernel\'s own lane column by construction of the translation. PROVED for every well-formed, combinationally acyclic netlist of known primitives, every stimulus, any value domain: '
+        text='Proof (option clauses full at logic and timing level; code-path clause: kernel bodies by proof from the source text, driver loops by differential execution). CODE PATH (round 3): the merge kernel is ONE function for both paths; wave_capture_cpu and wave_capture_gpu, both translated from the current source, are proved equal to the capture model and hence to each other for all waveforms and capture times (C06_capture_cpu_gpu_same_source_model; sd = 0); the dataset-selection prologue of the source is the select_idx of the dataset theorems (C06_select_source_is_model); the MockCuda launcher is translated from source and proved to run every in-range kernel instance exactly once from any stale coordinates (C06_launcher_source_is_model); the GPU driver kernels wave_assign_gpu, ppo_to_ppi_gpu, wave_eval_gpu, the level_eval_cpu loop nest and the capture write-back are translated from source (translate/gen_wave_drivers.py): one kernel instance = the per-lane model step = the CPU twin (C06_assign_cpu_gpu_same_source_model over the whole launch, C06_accumulate_cpu_gpu_same_source_model, C06_capture_writeback_cpu_gpu_same_source_model; state transfer per instance: C06_state_transfer_gpu_instance_partial), the launch order is the CPU loop order (C06_launch_is_cpu_loop), and every kernel is lane-local (C06_kernels_lane_local, with the translator rejecting any access outside the kernel\'s own lane column); every memory access of the kernels is in the kernel\'s own lane column by construction of the translation. PROVED for every well-formed, combinationally acyclic netlist of known primitives, every stimulus, any value domain: '
              'whatever c_reuse and strip_forks are, the flat memory after the scheduled ops holds at the PPO slot of every observed port / state element the value that the '
              'UNSTRIPPED line-level execution gives the line feeding it (C06_options_irrelevant_spec), so any two option combinations agree at every observed slot '
              '(C06_options_irrelevant, C06_c_reuse_irrelevant, C06_end_to_end_reuse; ops, levels, aliases and interface do not depend on c_reuse: C06_c_reuse_same_interface); '
@@ -177,7 +177,7 @@ CLAIMS = {
     'C10': dict(
         technique='Coq proofs over the circuit-edit model: exhaustive resolve theorems for all cells of the five libraries; view of every reachable circuit is a well-formed netlist; copy/pickle preserve the pin-equivalent view, names and every solution; fork elimination preserves the function (id-based semantics, both directions) and the interface set; machine-checked witness for the state-order defect; view / s_names correspondence on edit histories; differential truth tables; all library cell definitions',
         text='Proof (copy, pickle, fork elimination, substitute on arbitrary implementations full; library clause full by exhaustive evaluation). '
-             'SUBSTITUTE, ANY IMPLEMENTATION (round 3, Properties/C10.v section 6): C10_substitute_function_full -- for every successful substitute call on a consistent host and a consistent implementation of the documented shape (subst_shape_b, pure_ports_b: every port has one pin), ANY subset of connected instance pins, clean-up included, in every value domain where BUF1 copies: the result is consistent, io and port names / order are unchanged, every node is a host node or the renamed copy of an implementation node, and the solutions of the result are exactly the host valuations in which the instance is read as the implementation function of its pins (unconnected input reads zero) -- both directions, agreeing on every surviving host line; the only exclusion is d22_free_b (known finding D22, refuted companion C10_substitute_d22_refuted); remove_dangling_nodes and the clean-up loop preserve the function with no assumption (C10_remove_dangling_function, C10_cleanup_function); D21 / D29 / pure-ports necessity are machine-checked witnesses; the split model (substitute = substitute_pre ; cleanup), all hypothesis checkers and the structural description are evaluated on every generated substitute case against the real Circuit. '
+             'SUBSTITUTE, ANY IMPLEMENTATION (round 3, Properties/C10.v section 6): C10_substitute_function_full -- for every successful substitute call on a consistent host and a consistent implementation of the documented shape (subst_shape_b, pure_ports_b: every port has one pin), ANY subset of connected instance pins, clean-up included, in every value domain where BUF1 copies: the result is consistent, io and port names / order are unchanged, every node is a host node or the renamed copy of an implementation node, and the solutions of the result are exactly the host valuations in which the instance is read as the implementation function of its pins (unconnected input reads zero) -- both directions, agreeing on every surviving host line; the only exclusion is d22_free_b (known finding D22, refuted companion C10_substitute_d22_refuted); remove_dangling_nodes and the clean-up loop preserve the function with no assumption (C10_remove_dangling_function, C10_cleanup_function); D21 / D29 / pure-ports necessity are machine-checked witnesses; the split model (substitute = substitute_pre ; cleanup), all hypothesis checkers and the structural description are evaluated on every generated substitute case against the real Circuit. RESOLVE LOOP (Properties/C10.v section 7): C10_resolve_function -- for every consistent host, every library table whose implementations satisfy the per-call hypotheses (lib_ok_sem_b, lib_total_b: PROVED for the complete tables of the five regenerated libraries, C10_lib_tables_ok) and no D22 instance, the WHOLE loop of resolve_tlib_cells (snapshot of the node list, instances deleted by an earlier clean-up are skipped) ends consistent, with io unchanged and no library kind left, and the solutions of the result are exactly the host valuations in which EVERY library instance is read through its implementation (both directions, equal observations at every kept node, ports included: C10_resolve_ports_kept); compared per case with the real resolve_tlib_cells incl. the number of substitute calls, on one-instance and multi-instance hosts (creation order unrelated to signal flow, unconnected pins, clean-ups deleting instances before their turn) with a hierarchical oracle. '
              'BRIDGE: for every circuit reachable by an edit history the netlist view (what the simulators read) is a well-formed netlist (C10_view_wf, C10_history_view_wf), so the C01/C07/C17 theorems apply to it. '
              'COPY / PICKLE: the result has the same node count and kinds, the same line table and io list, the same connected pins at every position (exact equality can fail only by a trailing None: C10_copy_view_not_equal), '
              'the same names position by position and the same s_nodes names; hence for ANY value domain the gate-by-gate solutions coincide (C10_copy_solution, C10_pickle_solution). '
